@@ -257,7 +257,13 @@ func (b AcraBlock) EncryptedDataEncryptionKeyLength() int {
 
 // Decrypt AcraBlock using all keys sequentially until successful decryption and context
 func (b AcraBlock) Decrypt(keys [][]byte, context []byte) ([]byte, error) {
+	if len(b) < AcraBlockMinSize {
+		return nil, ErrInvalidAcraBlock
+	}
 	keySize := b.EncryptedDataEncryptionKeyLength()
+	if len(b) < AcraBlockMinSize+keySize {
+		return nil, ErrInvalidAcraBlock
+	}
 	encryptedKey := b[EncryptedDataEncryptionKeyPosition : EncryptedDataEncryptionKeyPosition+keySize]
 	encryptedData := b[AcraBlockMinSize+keySize:]
 	keyEncryptionKeyBackend := b.KeyEncryptionBackend()
@@ -307,7 +313,10 @@ func ExtractAcraBlockFromData(data []byte) (int, AcraBlock, error) {
 		validMask <<= 1
 	}
 	restLength := binary.LittleEndian.Uint64(data[RestAcraBlockLengthPosition : RestAcraBlockLengthPosition+RestAcraBlockLengthSize])
-	if len(data) >= int(restLength+TagBeginSize) {
+	// the declared length must cover the fixed header together with the encrypted key it announces
+	// and must fit into the data; compare as unsigned values so that huge lengths cannot wrap around
+	keyLength := uint64(binary.LittleEndian.Uint16(data[DataEncryptionKeyLengthPosition : DataEncryptionKeyLengthPosition+DataEncryptionKeyLengthSize]))
+	if restLength <= uint64(len(data)-TagBeginSize) && restLength >= AcraBlockMinSize-TagBeginSize+keyLength {
 		validMask <<= 1
 	}
 	_, ok := keyEncryptionBackendTypeMap[KeyEncryptionBackendType(data[KeyEncryptionKeyTypePosition])]
